@@ -26,6 +26,10 @@ class Ctx:
         self.t0 = time.time()
         self.rng = random.Random(seed * 1000003 + int(pid[1:]))
         self.scratch = tempfile.mkdtemp(prefix=f"verif_{pid}_")
+        # temporary files of the implementation runs (numpy.f2py/meson leaves one build directory per Fortran compilation in
+        # $TMPDIR) go below the scratch directory, which cleanup() removes: a run leaves nothing behind under /tmp
+        os.makedirs(os.path.join(self.scratch, "tmp"), exist_ok=True)
+        os.environ["TMPDIR"] = os.path.join(self.scratch, "tmp")
         self.notes = []
         self.violations = []        # (replay_path, suffix)
         self.known_lines = []
